@@ -32,6 +32,12 @@ var c09Producers = []struct{ Name, JS string }{
 	{"ineq-bound", `bs["?<m"] = 2;`},
 	{"computed", `bs.c = 4 / 2; bs.d = Math.floor(7 / 2); bs.xs2 = [0.5 + 0.5];`},
 	{"reset", `bs = {};`},
+	// failures whose text is long and not ASCII: the text lands in the bindings ("error", "actionError")
+	{"throw-long-0", `throw Array(401).join("\u20ac");`},
+	{"throw-long-1", `throw "a" + Array(401).join("\u20ac");`},
+	{"throw-long-2", `throw "ab" + Array(401).join("\u20ac");`},
+	{"throw-huge-1", `throw "a" + Array(1500).join("\u00e9\u20ac");`},
+	{"text-long", `bs.txt = Array(401).join("\u20ac") + "\ud83d\ude00"; bs.lone = "\ud83d";`},
 }
 
 var c09Inspectors = []struct {
@@ -131,6 +137,10 @@ func c09RunHistory(spec *core.Spec, cs c09Case, roundTrip bool) ([]c09Step, stri
 			if uerr := json.Unmarshal(js, &st2); uerr != nil {
 				return out, "state-not-readable: " + uerr.Error()
 			}
+			// plain data survives the trip unchanged: same strings byte for byte, same numbers, same structure
+			if why := sameData(map[string]interface{}(st.Bs), map[string]interface{}(st2.Bs), "bindings"); why != "" && st.NodeName == st2.NodeName {
+				return out, "state-is-not-plain-data: after message #" + fmt.Sprint(i) + " (" + name + ") saving and reloading the state changes it: " + why
+			}
 			st = &st2
 		}
 	}
@@ -174,6 +184,106 @@ func c09One(c *vh.Ctx, spec *core.Spec, cs c09Case) {
 			return
 		}
 	}
+}
+
+// sameData compares a value in memory with its reloaded copy: "" or where they differ.
+func sameData(a, b interface{}, path string) string {
+	num := func(x interface{}) (float64, bool) {
+		switch v := x.(type) {
+		case float64:
+			return v, true
+		case float32:
+			return float64(v), true
+		case int:
+			return float64(v), true
+		case int64:
+			return float64(v), true
+		case int32:
+			return float64(v), true
+		case uint:
+			return float64(v), true
+		case uint64:
+			return float64(v), true
+		}
+		return 0, false
+	}
+	asMap := func(x interface{}) (map[string]interface{}, bool) {
+		switch v := x.(type) {
+		case map[string]interface{}:
+			return v, true
+		case match.Bindings:
+			return map[string]interface{}(v), true
+		}
+		return nil, false
+	}
+	if fa, ok := num(a); ok {
+		if fb, ok := num(b); ok && fa == fb {
+			return ""
+		}
+		return fmt.Sprintf("%s: number %v reloads as %v", path, a, b)
+	}
+	if ma, ok := asMap(a); ok {
+		mb, ok := asMap(b)
+		if !ok && !(len(ma) == 0 && b == nil) {
+			return fmt.Sprintf("%s: a map reloads as %T", path, b)
+		}
+		if len(ma) != len(mb) {
+			return fmt.Sprintf("%s: %d entries reload as %d", path, len(ma), len(mb))
+		}
+		for k, va := range ma {
+			vb, have := mb[k]
+			if !have {
+				return fmt.Sprintf("%s: entry %q is lost", path, k)
+			}
+			if why := sameData(va, vb, path+"."+k); why != "" {
+				return why
+			}
+		}
+		return ""
+	}
+	switch va := a.(type) {
+	case nil:
+		if b == nil {
+			return ""
+		}
+		if mb, ok := asMap(b); ok && len(mb) == 0 {
+			return ""
+		}
+		return fmt.Sprintf("%s: null reloads as %T", path, b)
+	case bool:
+		if vb, ok := b.(bool); ok && va == vb {
+			return ""
+		}
+		return fmt.Sprintf("%s: %v reloads as %v", path, a, b)
+	case string:
+		if vb, ok := b.(string); ok && va == vb {
+			return ""
+		}
+		vb, _ := b.(string)
+		return fmt.Sprintf("%s: a string of %d bytes reloads as a different string of %d bytes (%q... vs %q...)", path, len(va), len(vb), clipS(va), clipS(vb))
+	case []interface{}:
+		vb, ok := b.([]interface{})
+		if !ok && !(len(va) == 0 && b == nil) {
+			return fmt.Sprintf("%s: an array reloads as %T", path, b)
+		}
+		if len(va) != len(vb) {
+			return fmt.Sprintf("%s: %d elements reload as %d", path, len(va), len(vb))
+		}
+		for i := range va {
+			if why := sameData(va[i], vb[i], fmt.Sprintf("%s[%d]", path, i)); why != "" {
+				return why
+			}
+		}
+		return ""
+	}
+	return fmt.Sprintf("%s: a value of type %T is not plain data", path, a)
+}
+
+func clipS(s string) string {
+	if len(s) > 12 {
+		return s[len(s)-12:]
+	}
+	return s
 }
 
 // producedBy: the producers that ran before the save point (the values whose representation matters).
@@ -235,7 +345,7 @@ func C09(c *vh.Ctx) {
 	c.Bound("step_limits", limits)
 	c.Bound("history_max", maxLen)
 	c.Bound("messages", len(names))
-	c.Rule(fmt.Sprintf("one specification with %d ECMAScript producer actions (integers, fractions, arrays of numbers / objects, nested objects, nulls, in-place edits, computed numbers, a failing action, reset) and %d inspector branches (patterns over the produced values, incl. lastBindings/lastNode at the error node and an inequality); every message history up to the bound over all %d messages (incl. one consumed by a pattern-less default branch) x every step limit of the bound (small limits stop a walk at an action node, which is then also a save point) x every subset of message boundaries as save points (state -> JSON -> state); oracle: per message equal (node, canonical bindings, emitted) between the in-memory run and the persisted run. states = histories, transitions = messages processed; non-trivial = at least one save point.", len(c09Producers), len(c09Inspectors), len(names)))
+	c.Rule(fmt.Sprintf("one specification with %d ECMAScript producer actions (integers, fractions, arrays of numbers / objects, nested objects, nulls, in-place edits, computed numbers, a failing action, reset) and %d inspector branches (patterns over the produced values, incl. lastBindings/lastNode at the error node and an inequality); every message history up to the bound over all %d messages (incl. one consumed by a pattern-less default branch) x every step limit of the bound (small limits stop a walk at an action node, which is then also a save point) x every subset of message boundaries as save points (state -> JSON -> state); oracle: per message equal (node, canonical bindings, emitted) between the in-memory run and the persisted run, and at every save point the state equals its reloaded copy strictly (strings byte for byte, numbers by value, same structure) - a state that a JSON trip changes is not plain data. states = histories, transitions = messages processed; non-trivial = at least one save point.", len(c09Producers), len(c09Inspectors), len(names)))
 	var idx uint64
 	var rec func(h []string)
 	rec = func(h []string) {
